@@ -65,6 +65,11 @@ func ip2int(ip net.IP) uint32 {
 		return binary.BigEndian.Uint32(ip[12:16])
 	}
 
+	// absent or malformed address (e.g. an IE that carries an IPv6 address only)
+	if len(ip) != 4 {
+		return 0
+	}
+
 	return binary.BigEndian.Uint32(ip)
 }
 
